@@ -342,14 +342,14 @@ Definition mon_op (ms : Z) (m : mst) (o : hop * res) : nat * mst :=
   | HDelete id => (O, {| m_ids := upd_nth id None (m_ids m); m_now := m_now m |})
   end.
 
-(* (kind, index from 1) of the first op that violates the property; (0,0) = none *)
-Fixpoint mon_ops (ms : Z) (m : mst) (i : nat) (ops : list (hop * res)) : nat * nat :=
+(* (kind, index from 1) of the first op that violates the property; (0,0) = none; and the monitor's final state *)
+Fixpoint mon_ops (ms : Z) (m : mst) (i : nat) (ops : list (hop * res)) : nat * nat * mst :=
   match ops with
-  | [] => (O, O)
+  | [] => (O, O, m)
   | o :: r =>
       match mon_op ms m o with
       | (O, m') => mon_ops ms m' (S i) r
-      | (k, _) => (k, S i)
+      | (k, _) => (k, S i, m)
       end
   end.
 
@@ -359,11 +359,31 @@ Fixpoint first_over (i : nat) (l : list nat) : nat :=
   | n :: r => if Nat.ltb 1 n then S i else first_over (S i) r
   end.
 
+(* at quiescence: a plan on which a Start returned nil has been executed (exactly once, given first_over),
+   a plan on which no Start returned nil has not; S i = id i differs *)
+Fixpoint exec_mismatch (i : nat) (ids : list (option (pl * nat))) (ex : list nat) : nat :=
+  match ids, ex with
+  | Some (_, phase) :: r, n :: r' =>
+      if Nat.eqb n (if Nat.eqb phase 0 then 0 else 1) then exec_mismatch (S i) r r' else S i
+  | None :: r, n :: r' => exec_mismatch (S i) r r'        (* deleted meanwhile: nothing to say *)
+  | _, _ => O
+  end.
+
+(* kind 2: a plan executed more than once; kind 7: executions differ from the Starts that returned nil -
+   a Start that returned nil was not followed by an execution, or a plan ran that nobody started *)
 Definition hist_monitor (h : hist) : nat * nat :=
   match first_over 0 (h_execs h) with
-  | S i => (2%nat, S i)                                           (* kind 2: a plan executed more than once *)
-  | O => mon_ops (h_max h) {| m_ids := map (fun x => Some (fst x, O)) (h_pre h); m_now := h_now h |}
-                 0 (h_ops h)
+  | S i => (2%nat, S i)
+  | O =>
+      match mon_ops (h_max h) {| m_ids := map (fun x => Some (fst x, O)) (h_pre h); m_now := h_now h |}
+                    0 (h_ops h) with
+      | (O, _, m) =>
+          match exec_mismatch 0 (m_ids m) (h_execs h) with
+          | O => (O, O)
+          | i => (7%nat, i)
+          end
+      | (k, i, _) => (k, i)
+      end
   end.
 
 Definition count_ok (l : list res) : nat :=
